@@ -21,8 +21,11 @@ What is real
     app.json, the "configured" trace event - so that whatever it does to the
     event file or to apps/<unique>/ is part of the recorded state;
   * appcfg.app_name for the way back from container names;
-  * monitor.MonitorContainerCleanup.execute, cleanup.Cleanup.invoke,
-    appcfg.abort.flag_aborted.
+  * monitor.MonitorContainerCleanup.execute, appcfg.abort.flag_aborted;
+  * the cleanup service: cleanup.Cleanup._sync/_add_cleanup_app/
+    _remove_cleanup_app/invoke with a second real DirWatcher on cleanup/ wired
+    as Cleanup.run() wires it (supervisor.create_service of the cleaning app is
+    real; ensure_not_supervised is stubbed).
 What is stubbed (cannot run here / out of the property's scope)
   * inside configure(): the runtime plugin class (runtime specific manifest
     processing needs TREADMILL_ID, node.json and installed entry points) and
@@ -34,7 +37,7 @@ History = list of [op, args]:
   CacheCreate [a]   CacheDelete [a]   ReadyOn []   ReadyOff []
   ContainerFinishes [a, g, marker]    MonitorCleanup [a, g]
   CleanupCompletes [k, i, g]          ManagerRestart []     NodeStart []
-  Deliver []
+  Deliver []   CleanupStart []   CleanupEvent []   (cleanup service, extension)
 An op that is not possible in the real state (file not there, queue empty,
 container not supervised ...) is dropped; the effective history is returned.
 Trace lines carry the model's event names (Deliver -> OnCreated/OnDeleted/
@@ -139,6 +142,8 @@ class Node:
             mock.patch('treadmill.subproc.resolve', lambda exe: '/opt/fake/' + exe),
             mock.patch('treadmill.supervisor.control_svscan', mock.Mock()),
             mock.patch('treadmill.appcfg.abort.report_aborted', mock.Mock()),
+            # Cleanup._remove_cleanup_app waits for s6 to let go of the cleaning app
+            mock.patch('treadmill.supervisor.ensure_not_supervised', mock.Mock()),
             mock.patch('treadmill.runtime.get_runtime',
                        lambda _rt, _env, container_dir, _param=None: _StubRuntime(container_dir)),
         ]
@@ -153,11 +158,13 @@ class Node:
         self.mgr = None
         self.watch = None
         self.exc = None       # exception raised by the code under test in the last op
+        self.csvc = None      # the cleanup service (treadmill.cleanup.Cleanup) once started
+        self.cwatch = None    # ... and its watch on cleanup/
         try:
             self._start_manager()
             env = self.mgr.tm_env
             for d in (env.cache_dir, env.apps_dir, env.running_dir, env.cleanup_dir,
-                      env.app_events_dir):
+                      env.app_events_dir, env.cleaning_dir, env.cleanup_apps_dir):
                 os.makedirs(d)
             self._watch()
         except Exception:
@@ -190,6 +197,7 @@ class Node:
             except OSError:
                 pass
             self.watch = None
+        self._stop_cleanup()
         for p in reversed(self._patches):
             p.stop()
         self._patches = []
@@ -197,9 +205,28 @@ class Node:
 
     # -- the event queue ------------------------------------------------------
     def _drain(self):
-        """Move what inotify has into the watcher's own queue."""
-        while self.watch._wait_for_events(0):
-            self.watch.event_list.extend(self.watch._read_events())
+        """Move what inotify has into the watchers' own queues."""
+        for w in (self.watch, self.cwatch):
+            while w is not None and w._wait_for_events(0):
+                w.event_list.extend(w._read_events())
+
+    def _stop_cleanup(self):
+        if self.cwatch is not None:
+            try:
+                self.cwatch.inotify.close()
+            except OSError:
+                pass
+        self.cwatch = None
+        self.csvc = None
+
+    def cpending(self):
+        out = []
+        if self.cwatch is not None:
+            for ev, path in self.cwatch.event_list:
+                base = os.path.basename(path)
+                if ev in _KIND and not base.startswith('.'):
+                    out.append(dict(k=_KIND[ev], n=self._link_name(base)))
+        return out
 
     @staticmethod
     def _relevant(path):
@@ -271,7 +298,12 @@ class Node:
         return dict(cache=cache, cacheid=cacheid, ready=os.path.exists(os.path.join(env.cache_dir, READY)),
                     active=bool(self.mgr._is_active), pending=self.pending(), apps=apps,
                     running=running, cleanup=cleanup,
-                    tomb=[dict(i=a, g=g) for a, g in self.tomb])
+                    tomb=[dict(i=a, g=g) for a, g in self.tomb],
+                    # extension: the cleanup service's side
+                    svc=self.cwatch is not None, cpending=self.cpending(),
+                    cleaning=[self._link_name(f) for f in sorted(os.listdir(env.cleaning_dir))
+                              if os.path.islink(os.path.join(env.cleaning_dir, f))],
+                    capps=[self._link_name(f) for f in sorted(os.listdir(env.cleanup_apps_dir))])
 
     # -- helpers on the real state -------------------------------------------
     def _container_dir(self, a, g):
@@ -358,12 +390,51 @@ class Node:
             {'id': real_name(a), 'signal': 0, 'return_code': 1, 'timestamp': 0.0})
         return 'MonitorCleanup', [a, g]
 
-    def op_CleanupCompletes(self, k, i, g):
+    def op_CleanupCompletes(self, k, i, g, svc=False):
+        """Cleanup.invoke(name) - what `treadmill sproc cleanup instance <name>`,
+        the run script of the cleaning app, calls.  With the cleanup service
+        modelled (svc) only a configured cleaning app of a running service does."""
         env = self.mgr.tm_env
         for f in os.listdir(env.cleanup_dir):
             if self._link_name(f) == dict(k=k, i=i, g=g):
-                tm_cleanup.Cleanup(env).invoke('linux', f)
+                if svc and (self.cwatch is None or
+                            not os.path.islink(os.path.join(env.cleaning_dir, f))):
+                    return None
+                (self.csvc or tm_cleanup.Cleanup(env)).invoke('linux', f)
                 return 'CleanupCompletes', [k, i, g]
+        return None
+
+    def op_CleanupStart(self):
+        """Cleanup.run() up to its loop: watch on cleanup/, _sync()."""
+        self._stop_cleanup()
+        env = self.mgr.tm_env
+        self.csvc = tm_cleanup.Cleanup(env)
+        self.cwatch = dirwatch.DirWatcher(env.cleanup_dir)
+        self.cwatch.on_created = self.csvc._add_cleanup_app
+        self.cwatch.on_deleted = self.csvc._remove_cleanup_app
+        try:
+            self.csvc._sync()
+        except tlc.MachineryError:
+            raise
+        except Exception as e:  # pylint: disable=broad-except
+            self.exc = type(e).__name__
+        return 'CleanupStart', []
+
+    def op_CleanupEvent(self):
+        """Cleanup.run(): watcher.process_events - one event."""
+        if self.cwatch is None:
+            return None
+        while self.cwatch.event_list:
+            ev, path = self.cwatch.event_list[0]
+            relevant = ev in _KIND and not os.path.basename(path).startswith('.')
+            try:
+                self.cwatch.process_events(max_events=1, resume=True)
+            except tlc.MachineryError:
+                raise
+            except Exception as e:  # pylint: disable=broad-except
+                self.exc = type(e).__name__
+            if relevant:
+                return 'CleanupEvent', []
         return None
 
     def op_ManagerRestart(self):
@@ -375,6 +446,7 @@ class Node:
         """The node's services start: "On startup run.sh will clear running and
         cleanup" (docstring of _synchronize); supervisors and tombstones are gone."""
         env = self.mgr.tm_env
+        self._stop_cleanup()              # the cleanup service is one of those services
         for d in (env.running_dir, env.cleanup_dir):
             for f in os.listdir(d):
                 os.unlink(os.path.join(d, f))
@@ -403,7 +475,9 @@ class Node:
         return None
 
 
-def _apply(node, op, args, late):
+def _apply(node, op, args, late, svc=False):
+    if op == 'CleanupCompletes':
+        return node.op_CleanupCompletes(*args[:3], svc=svc)
     if op in ('OnCreated', 'OnDeleted', 'OnModified', 'Deliver'):
         return node.op_Deliver()
     if op == 'MonitorCleanup':
@@ -413,7 +487,7 @@ def _apply(node, op, args, late):
     return getattr(node, 'op_' + op)(*args)
 
 
-def enabled_ops(post, instances, maxgen, gens, late):
+def enabled_ops(post, instances, maxgen, gens, late, svc=False):
     """Ops possible in the projected state `post` (for the online random
     generator), as (weight, op, args)."""
     ops = []
@@ -438,7 +512,14 @@ def enabled_ops(post, instances, maxgen, gens, late):
         if late or run.get(t['i'], c) == c:
             ops.append((2.0, 'MonitorCleanup', [t['i'], t['g']]))
     for l in post['cleanup']:
-        ops.append((0.35, 'CleanupCompletes', [l['n']['k'], l['n']['i'], l['n']['g']]))
+        if not svc:
+            ops.append((0.35, 'CleanupCompletes', [l['n']['k'], l['n']['i'], l['n']['g']]))
+        elif post['svc'] and l['n'] in post['cleaning']:
+            ops.append((0.8, 'CleanupCompletes', [l['n']['k'], l['n']['i'], l['n']['g']]))
+    if svc:
+        ops.append((0.3 if post['svc'] else 3.0, 'CleanupStart', []))
+        if post['cpending']:
+            ops.append((2.0 + len(post['cpending']), 'CleanupEvent', []))
     ops.append((0.8, 'ManagerRestart', []))
     if post['apps']:
         ops.append((0.5, 'NodeStart', []))
@@ -447,9 +528,13 @@ def enabled_ops(post, instances, maxgen, gens, late):
     return ops
 
 
-def replay(history=None, rng=None, depth=0, instances=('a1', 'a2'), maxgen=2, late=False):
+def replay(history=None, rng=None, depth=0, instances=('a1', 'a2'), maxgen=2, late=False,
+           svc=False):
     """Run one history (or, with rng, generate one online) on a fresh node.
-    Returns (effective history, trace lines)."""
+    svc: the cleanup service is part of the history (CleanupStart/CleanupEvent;
+    invoke only through a configured cleaning app); implied by a history that
+    starts it.  Returns (effective history, trace lines)."""
+    svc = svc or any(h[0] == 'CleanupStart' for h in (history or []))
     node = Node()
     try:
         post = node.project()
@@ -464,12 +549,12 @@ def replay(history=None, rng=None, depth=0, instances=('a1', 'a2'), maxgen=2, la
             else:
                 if k >= depth:
                     break
-                ops = enabled_ops(post, instances, maxgen, node.gens, late)
+                ops = enabled_ops(post, instances, maxgen, node.gens, late, svc)
                 op, args = rng.choices([(o, a) for _, o, a in ops],
                                        weights=[w for w, _, _ in ops])[0]
             k += 1
             node.exc = None
-            res = _apply(node, op, args, late)
+            res = _apply(node, op, args, late, svc)
             if res is None:
                 continue
             node._drain()
